@@ -49,6 +49,7 @@ def run(ctx):
     r510(ctx, m)
     from . import c13 as _c13
     _c13.r135(ctx)
+    _c13.r134(ctx, ctx.repo['api'])     # the row mask is cut at the boundaries of the row groups that survive pruning
     from . import c08 as _c08b
     _c08b.r89(ctx, ctx.repo['util'], 'R5.11')
     from . import c08 as _c08
